@@ -18,7 +18,7 @@ import (
 )
 
 func init() {
-	register(&Prop{ID: "C30", Module: "V.C30.Check", Gen: c30Gen, Quick: 600, Thorough: 12000, Shard: 60})
+	register(&Prop{ID: "C30", Module: "V.C30.Check", Gen: c30Gen, Quick: 600, Thorough: 4000, Shard: 60})
 }
 
 func c30Recover(c *Case) {
@@ -395,7 +395,7 @@ func c30CSSAccepts(x string) bool {
 
 func c30ColourCases(r *Rng, n int) []Case {
 	var out []Case
-	corpus := []string{"red", "RED", "Khaki", "darKkhakİ", "#fff", "#ffff", "#A0B1c2", "#a0b1c", "N1", "AA3", "", "transparent", "currentcolor",
+	corpus := []string{"red", "RED", "Khaki", "darKkhakİ", "#fff", "#ffff", "#A0B1c2", "#a0b1c", "N1", "AA3", "", "transparent", "currentcolor", "#fff\"/><x", "#ffffff<", "x#fff", "#abc onload=\"a\"", "red\"", "\"red", "#fff\n", "red\n", "N1\n", "<N1", "url('#grad-x')",
 		"linear-gradient(red, blue)", "linear-gradient(red 10%\"/><script>alert(1)</script><x, blue)",
 		"linear-gradient(\"/><script>alert`1`</script><x(abc), blue)", "radial-gradient(circle, white 0%, #8A2BE2 60%, #4B0082 100%)",
 		"linear-gradient(45deg, rgba(255,0,0,0.5) 0%, rgba(0,0,255,0.5) 100%)", "linear-gradient(to bottom right, red 0%, yellow 25%, green 50%, cyan 75%, blue 100%)",
